@@ -357,6 +357,7 @@ func c01Work(c *engine.Ctx) {
 	t1 := time.Now()
 	c.Count("max:ms_enum", int64(t1.Sub(t0)/time.Millisecond))
 	c01SeedWork(c)
+	c01Families(c)
 	t2 := time.Now()
 	c.Count("max:ms_seeds", int64(t2.Sub(t1)/time.Millisecond))
 	c01NestWork(c)
